@@ -46,6 +46,9 @@ CHECKS = {
  "C12": ("model_checking", "TLC model checking (GreedyParallel, Termination under weak fairness) + TLC validation of fork/join traces, watchdog for termination",
          "GreedyParallel and Termination hold on spec/Schedule.tla; on real runs every pair of tasks that greedy in-order grouping by declared access puts in one group must be forked inside one join region (or be started early), and every run on pools of 1/2/4/8 threads and in the single-threaded deterministic shim must reach the end of run_schedule.",
          "Greedy grouping yardstick = Access!StageOf; hang watchdog 600 s per bin.", "6 C12"),
+ "C17": ("fault_enumeration", "panic injected at every call-back position enumerated from a dry run; ledger and allocator trace validated by TLC against PanicSafe (spec/TracePanic.tla)",
+         "For 24 operations that invoke user code and every position k of every call-back kind (Clone, Drop, PartialEq, Debug, Serialize, Deserialize, system / parallel closure bodies), one panic is injected on a world with multi-column tables, then every reachable value is read and every world dropped. TLC requires: the panic reaches the caller, no value dropped twice, no drop of a never-created value, no user code on a dropped value, no dropped or corrupt value reachable, allocator protocol intact, worlds droppable. Exhaustive over the enumerated (operation, kind, k) space; seven failing (operation, kind) classes of the pinned tree are recorded in known_findings.json.",
+         "One panic per scenario; world shapes fixed; leaks after a panic are accepted.", "6 C17 and 7"),
 }
 
 def main():
@@ -62,6 +65,8 @@ def main():
         "engines": [
             {"name": "world", "path": "tools/pipe_world.py", "serves_properties": ["C01", "C02", "C03", "C04", "C05", "C06", "C09", "C10", "C13", "C15", "C16"],
              "kind_free_text": "spec/WorldStore.tla + MCWorld.tla model-checked by TLC; harness/worlddrv executes histories on real Worlds; spec/TraceWorld.tla validates every event"},
+            {"name": "fault", "path": "tools/pipe_fault.py", "serves_properties": ["C17"],
+             "kind_free_text": "harness/faultdrv enumerates (operation, call-back kind, position) and injects one panic each; spec/TracePanic.tla validates the ledger and allocator trace"},
             {"name": "sched", "path": "tools/pipe_sched.py", "serves_properties": ["C07", "C08", "C12"],
              "kind_free_text": "spec/Schedule.tla + MCSchedule.tla model-checked by TLC; generated schedule bins run under the brood_verif fork/join shim; spec/TraceSchedule.tla validates every run"},
         ],
@@ -79,7 +84,7 @@ def main():
                 "thorough_cmd": "./check %s thorough" % p,
                 "evidence_file": "evidence/%s.json" % p,
                 "replay_cmd_template": "./check %s --replay {path}" % p,
-                "engine": "sched" if p in ("C07", "C08", "C12") else "world",
+                "engine": "sched" if p in ("C07", "C08", "C12") else ("fault" if p == "C17" else "world"),
                 "level_claimed": {"category": lvl, "text": text, "design_ref": "DESIGN.md section " + ref},
                 "level_note": note,
                 "technique": tech,
